@@ -419,7 +419,8 @@ func init() {
 			var snap ui.VerifSnapshot
 			for time.Now().Before(deadline) {
 				snap = s.VerifSnap()
-				busy := snap.Mode == ui.VerifLoading || snap.Mode == ui.VerifOpening || snap.LoadingUp || snap.LoadingDown || s.VerifAnyLoading()
+				anyLoading := s.VerifAnyLoading() // always called: it also registers the current page, whose loaders must be waited for later
+				busy := snap.Mode == ui.VerifLoading || snap.Mode == ui.VerifOpening || snap.LoadingUp || snap.LoadingDown || anyLoading
 				if !busy {
 					stable++
 					if stable >= 3 {
@@ -572,7 +573,10 @@ func init() {
 			var snap ui.VerifSnapshot
 			for time.Now().Before(deadline) {
 				snap = s.VerifSnap()
-				busy := (hold == nil && snap.Mode == ui.VerifLoading) || snap.Mode == ui.VerifOpening || (!gated && (snap.LoadingUp || snap.LoadingDown || s.VerifAnyLoading()))
+				// always called, also while the gate is closed: it registers the current page, and a page that was current only while
+				// the gate was closed has loaders that finish (and emit a frame) after the gate opens, when another page is current
+				anyLoading := s.VerifAnyLoading()
+				busy := (hold == nil && snap.Mode == ui.VerifLoading) || snap.Mode == ui.VerifOpening || (!gated && (snap.LoadingUp || snap.LoadingDown || anyLoading))
 				if !busy {
 					stable++
 					if stable >= 3 {
